@@ -26,6 +26,7 @@ import (
 	"sort"
 	"strconv"
 	"strings"
+	"time"
 
 	"github.com/opencontainers/go-digest"
 	ocispec "github.com/opencontainers/image-spec/specs-go/v1"
@@ -578,6 +579,28 @@ func accurateFor(d fr.Desc, b []byte) bool { return d.DG == sha(b) && d.SZ == in
 // its effect; "" = no prediction for the result (state effect known);
 // "?" = the caller's descriptor is inaccurate and the effect is not fixed by the
 // property: the history is not judged any further.
+// How Predecessors and the referrers bookkeeping work in this case: over the Referrers API
+// ("api"), over the referrers tag schema ("tags": registry without the API, or a client told
+// that there is none), or a client/registry combination this oracle does not predict ("").
+func (c *Case) referrersRegime() string {
+	switch {
+	case c.Rst == 2 || (!c.Prof.Referrers && c.Rst == 0):
+		return "tags"
+	case c.Prof.Referrers:
+		return "api"
+	}
+	return ""
+}
+
+func (c *Case) subjectOf(b []byte) *fr.Desc {
+	for _, p := range c.Pool {
+		if bytes.Equal(p.Bytes, b) {
+			return p.subj
+		}
+	}
+	return nil
+}
+
 func (c *Case) overLimit(n int) bool {
 	l := c.O.MaxMeta
 	if l <= 0 {
@@ -602,6 +625,9 @@ func (t *truth) expect(c *Case, o Op) string {
 			if indexable(o.D.MT) && c.overLimit(len(content)) {
 				return "?" // refused by MaxMetadataBytes unless the Referrers API is known to be there
 			}
+			if old, ok := t.mans[o.D.DG]; ok && old.mt != o.D.MT && c.subjectOf(content) != nil {
+				return "?" // the same referrer under two media types: two index entries, one manifest
+			}
 			t.mans[o.D.DG] = man{o.D.MT, content}
 			if !jsonOK() && indexable(o.D.MT) {
 				return "" // stored, but the client may fail to decode it afterwards
@@ -622,6 +648,9 @@ func (t *truth) expect(c *Case, o Op) string {
 			return "err"
 		}
 		if indexable(o.D.MT) && c.overLimit(len(content)) {
+			return "?"
+		}
+		if old, ok := t.mans[o.D.DG]; ok && old.mt != o.D.MT && c.subjectOf(content) != nil {
 			return "?"
 		}
 		t.mans[o.D.DG] = man{o.D.MT, content}
@@ -767,12 +796,15 @@ func (t *truth) expect(c *Case, o Op) string {
 		t.blobs[o.D.DG] = src
 		return "ok"
 	case "preds":
+		regime := c.referrersRegime()
+		if regime == "" {
+			return ""
+		}
 		var l []fr.Desc
 		for dg, m := range t.mans {
-			for _, p := range c.Pool {
-				if bytes.Equal(p.Bytes, m.b) && p.subj != nil && p.subj.DG == o.D.DG {
-					l = append(l, fr.Desc{MT: m.mt, DG: dg, SZ: int64(len(m.b))})
-				}
+			// the tag schema lists what the client indexed itself: manifests of the indexed media types
+			if sj := c.subjectOf(m.b); sj != nil && sj.DG == o.D.DG && (regime == "api" || indexable(m.mt)) {
+				l = append(l, fr.Desc{MT: m.mt, DG: dg, SZ: int64(len(m.b))})
 			}
 		}
 		if c.O.MaxMeta > 0 && c.O.MaxMeta < 1<<16 {
@@ -804,6 +836,27 @@ func mustFail(c *Case, o Op, ex fr.Exchange) bool {
 	hasDesc := map[string]bool{"push": true, "pushref": true, "fetch": true, "exists": true, "delete": true, "tag": true, "mount": true}[o.Kind]
 	digestRef := q.EP.Kind == "blob" || (q.EP.Kind == "man" && validDigest(q.EP.Arg))
 	orig := ex.R.Status
+	if (q.M == "GET" || q.M == "HEAD") && q.EP.Kind == "man" && strings.HasPrefix(q.EP.Arg, "sha256-") {
+		switch f {
+		case "dig-other":
+			if q.M == "HEAD" { // (the GET had no Content-Length; the body is that GET's)
+				return ok2xx(orig) && ex.R.Dig != nil
+			}
+			return ok2xx(orig) && ex.R.Dig != nil && *ex.R.Dig != sha(ex.R.Body)
+		case "dig-garbage":
+			return ok2xx(orig)
+		case "len-inc":
+			return ok2xx(orig) && ex.R.CLen != nil
+		case "status":
+			// a 404 means "no referrers index yet"; 200 is the success status
+			return c.Cor.Arg != "404" && c.Cor.Arg != "200" && c.Cor.Arg != strconv.Itoa(origStatusOf(ex))
+		case "type-garbage", "type-drop":
+			// a GET without Content-Length is described by the following HEAD; its own
+			// Content-Type is then never looked at
+			return ok2xx(orig) && (q.M == "HEAD" || ex.R.CLen != nil)
+		}
+		return false // name-unknown = a 404; the media type of the index is not something that was requested
+	}
 	if f == "name-unknown" {
 		return true
 	}
@@ -836,6 +889,9 @@ func mustFail(c *Case, o Op, ex fr.Exchange) bool {
 	if noLenGet && f != "dig-other" && f != "dig-garbage" {
 		return false
 	}
+	// the GET of a referrers tag (tag schema): the index is used by Predecessors and by the index
+	// update of push/delete; the response must be consistent in itself -- a digest header that is
+	// not the digest of the body, or a Content-Length that is not its length, must fail the call
 	// what the call knows about the content it asked for
 	wantDigest := ""
 	if hasDesc {
@@ -915,7 +971,18 @@ func execHistory(id string, c *Case) (nreq int) {
 		g.CurOp = i
 		first := len(g.Log)
 		sentBefore, gotBefore := len(g.SentWarnings), len(gotWarnings)
-		res := doOp(ctx, c, repo, o)
+		// watchdog: an operation that does not return (a page loop that never ends, a wedged
+		// merge of referrers changes) is a failure with a replay, not a hanging check
+		resCh := make(chan opResult, 1)
+		go func() { resCh <- doOp(ctx, c, repo, o) }()
+		var res opResult
+		select {
+		case res = <-resCh:
+		case <-time.After(20 * time.Second):
+			run.OracleFail(id, "hang", fmt.Sprintf("op %d (%s) did not return within 20s (%d requests so far)", i, o.Kind, len(g.Log)-first), replayOf(line))
+			run.Case(id, line, "hang")
+			return g.N
+		}
 		if c.O.Warn {
 			sent, got := g.SentWarnings[sentBefore:], gotWarnings[gotBefore:]
 			if strings.Join(sent, "\x00") != strings.Join(got, "\x00") {
@@ -967,6 +1034,12 @@ func execHistory(id string, c *Case) (nreq int) {
 		}
 		if hit != nil {
 			run.Count("corrupt:" + c.Cor.Field + ":" + o.Kind + ":" + hit.Q.M + ":" + hit.Q.EP.Kind)
+			if hit.Q.EP.Kind == "man" && strings.HasPrefix(hit.Q.EP.Arg, "sha256-") {
+				run.Count("tagschema:index-response-corrupted")
+				if mustFail(c, o, *hit) {
+					run.Count("tagschema:index-corruption-must-fail")
+				}
+			}
 			// a 404 is an answer the protocol defines: Exists reports "not there" instead of failing
 			notFound := (c.Cor.Field == "name-unknown" || (c.Cor.Field == "status" && c.Cor.Arg == "404")) &&
 				((o.Kind == "exists" && res.Str == "bool:0") ||
@@ -980,6 +1053,16 @@ func execHistory(id string, c *Case) (nreq int) {
 			continue
 		}
 		exp := t.expect(c, o)
+		if c.referrersRegime() == "tags" && exp != "" && exp != "?" {
+			if o.Kind == "preds" {
+				run.Count("tagschema:preds-judged")
+			} else if o.CI >= 0 && c.Pool[o.CI].subj != nil && (o.Kind == "push" || o.Kind == "pushref") {
+				run.Count("tagschema:push-with-subject-judged")
+			} else if o.Kind == "delete" && exp == "ok" && len(tr) >= 3 {
+				// (GET manifest, [ping,] GET referrers tag, ..., DELETE): a stored manifest with a subject
+				run.Count("tagschema:delete-with-subject-judged")
+			}
+		}
 		if exp == "?" { // inaccurate descriptor with a state effect the property does not fix
 			judging = false
 			continue
@@ -992,12 +1075,21 @@ func execHistory(id string, c *Case) (nreq int) {
 			// Docker-Content-Digest (the header is optional in the specification) is refused by
 			// generateDescriptor; reached by Resolve(tag) and by FetchReference(tag) when the GET
 			// carries no Content-Length and falls back to Resolve.
-			if k, _ := refKind(o.S); k == "tag" && !c.Prof.DigHdr && res.Str == "err:other" && !strings.HasPrefix(exp, "err") &&
-				(o.Kind == "resolve" || (o.Kind == "fetchref" && !c.Prof.CLen)) &&
+			k, _ := refKind(o.S)
+			direct := k == "tag" && (o.Kind == "resolve" || (o.Kind == "fetchref" && !c.Prof.CLen))
+			// ... and by the referrers tag schema, which reads the index with FetchReference(referrers tag)
+			viaTagSchema := !c.Prof.CLen && c.referrersRegime() == "tags" &&
+				(o.Kind == "push" || o.Kind == "pushref" || o.Kind == "delete" || o.Kind == "preds")
+			if (direct || viaTagSchema) && !c.Prof.DigHdr && res.Str == "err:other" && !strings.HasPrefix(exp, "err") &&
 				res.Err != nil && strings.Contains(res.Err.Error(), "missing required header") {
 				sig = "head-tag-no-digest-header"
 				run.Count("known:" + sig)
 				knownSeen++
+				if viaTagSchema && o.Kind != "preds" {
+					// the call failed half way (manifest stored / not deleted, index not updated):
+					// the registry state after it is not fixed by the property
+					judging = false
+				}
 				if knownSeen > 25 {
 					continue // reported often enough in this run; counted above
 				}
@@ -1721,12 +1813,15 @@ func genCase(r *common.Rand, nops int) *Case {
 	if r.Chance(1, 4) {
 		c.MTs = [][]string{{mtOCIManifest, mtCustom}, {mtCustom}, {mtDockerManifest, mtOCIIndex, mtLayer}}[r.Intn(3)]
 	}
-	// pool: JSON manifests (some with a subject when the registry answers OCI-Subject), raw blobs, one non-JSON
+	// pool: JSON manifests (some with a subject: Referrers API or referrers tag schema, depending
+	// on the registry), raw blobs, one non-JSON.  With a MaxMetadataBytes around the manifest sizes
+	// no subjects (the referrers index document would not fit).
+	nearLimit := r.Chance(1, 4)
 	nman := 3 + r.Intn(3)
 	for i := 0; i < nman; i++ {
 		var subj *fr.Desc
 		sj := "-"
-		if i > 0 && c.Prof.Referrers && c.Rst != 2 && r.Chance(1, 3) {
+		if i > 0 && !nearLimit && r.Chance(2, 5) {
 			p := c.Pool[r.Intn(i)]
 			subj = &fr.Desc{MT: mtOCIManifest, DG: p.Digest, SZ: int64(len(p.Bytes))}
 			sj = fmt.Sprintf("%s/%s/%d", common.Hex(subj.MT), common.Hex(subj.DG), subj.SZ)
@@ -1751,7 +1846,7 @@ func genCase(r *common.Rand, nops int) *Case {
 		c.Pool = append(c.Pool, PoolItem{Bytes: b, Digest: sha(b), Subj: "N"})
 	}
 	// MaxMetadataBytes around the size of one of the manifests: limit-1, limit, limit+1
-	if r.Chance(1, 4) {
+	if nearLimit {
 		c.O.MaxMeta = int64(len(c.Pool[r.Intn(nman)].Bytes)) + int64(r.Intn(3)) - 1
 		if c.O.MaxMeta <= 0 {
 			c.O.MaxMeta = 1
@@ -1900,7 +1995,7 @@ func genCase(r *common.Rand, nops int) *Case {
 			pushed = append(pushed, d)
 		case x < 95:
 			// (the referrers index document itself is not modelled byte-wise: no tiny limits here)
-			if !c.Prof.Referrers || c.Rst == 2 || (c.O.MaxMeta > 0 && c.O.MaxMeta < 1<<16) {
+			if c.O.MaxMeta > 0 && c.O.MaxMeta < 1<<16 {
 				continue
 			}
 			o = Op{Kind: "preds", D: someDesc(), CI: -1}
@@ -1948,7 +2043,7 @@ func canonicalCase(prof fr.Profile, rst int, plain bool) *Case {
 	}
 	m0 := add([]byte(`{"schemaVersion":2,"n":0}`), nil)
 	m0d := desc(m0, mtOCIManifest)
-	withSubject := prof.Referrers && rst != 2
+	withSubject := true // Referrers API or referrers tag schema, depending on the profile
 	var m1 int
 	if withSubject {
 		b, _ := json.Marshal(map[string]any{"schemaVersion": 2, "subject": map[string]any{"mediaType": m0d.MT, "digest": m0d.DG, "size": m0d.SZ}})
@@ -2194,7 +2289,7 @@ func main() {
 		return
 	}
 	r := run.Rand
-	nh := run.Scale(2500, 16000)
+	nh := run.Scale(2500, 14000) // thorough sized for <= ~15 min on a loaded machine
 	for i := 0; i < nh; i++ {
 		c := genCase(r.Fork(), 6+r.Intn(run.Scale(16, 30)))
 		n := execHistory(run.NewID(), c)
@@ -2242,7 +2337,8 @@ func main() {
 	if run.Replay == "" {
 		floors := map[string]int{"seek:r": 1000, "seek:s": 1000, "seek:position-unchanged": 50, "seek:read-eof-with-data": 50, "seek:reconnect": 200,
 			"seek:corrupt:status": 5, "seek:corrupt:len-inc": 3, "location:url": 200, "grammar:allowed": 200, "grammar:rejected": 200,
-			"opt:limit-near-manifest-size": 50, "reader:opaque": 100, "route:manifests": 100, "route:blobs": 100, "warnings:delivered": 100}
+			"opt:limit-near-manifest-size": 50, "tagschema:preds-judged": 30, "tagschema:push-with-subject-judged": 50,
+			"tagschema:delete-with-subject-judged": 20, "tagschema:index-corruption-must-fail": 20, "reader:opaque": 100, "route:manifests": 100, "route:blobs": 100, "warnings:delivered": 100}
 		var low []string
 		for k, v := range floors {
 			if run.Dist[k] < v {
